@@ -651,6 +651,9 @@ func special(r *core.Run) {
 		r.AddTransitions(1)
 		if bad {
 			r.Violate("c04", "special:empty-dotimes-cancel", kk, "context-cancelled within one step of the cancellation", rep, "")
+			if r.Seen("special:empty-dotimes-cancel") >= 2 {
+				break // each further case would wait out the watchdog again
+			}
 		}
 	}
 	// and under every budget 1..40
@@ -661,6 +664,9 @@ func special(r *core.Run) {
 		r.AddTransitions(1)
 		if bad {
 			r.Violate("c04", "special:empty-dotimes-budget", kk, "step-limit-exceeded after exactly n steps", rep, "")
+			if r.Seen("special:empty-dotimes-budget") >= 2 {
+				break
+			}
 		}
 	}
 	// (b) pending time:sleep is interrupted by cancellation
@@ -741,8 +747,8 @@ func specialReplay(class string, k kase) (bool, string) {
 		case res := <-done:
 			bad := !res.out.IsErr || res.out.Cond != lisp.CondContextCancelled || res.steps > k.Lim.CancelAt+1
 			return bad, fmt.Sprintf("%s steps=%d", res.out.Full(), res.steps)
-		case <-time.After(60 * time.Second):
-			return true, "still running after 60 s"
+		case <-time.After(30 * time.Second):
+			return true, "still running after 30 s"
 		}
 	case "special:empty-dotimes-budget":
 		g := newRig()
